@@ -24,7 +24,7 @@ RULE = ("cases = enumerated (not sampled) cross product of: option --method (abs
         "method the helper answers with (auto -> nat/nft/pf/ipfw; plus a synthetic method without loopback_proxy_port) x "
         "--disable-ipv6 x 13 --listen forms (none, v4, v4:port, v6, v6:port, both, both with ports, both with one port, "
         "0.0.0.0, bare port, port equal to the first DNS search port) x DNS forms (off, --dns with v4/v6/both/no resolvers, "
-        "--ns-hosts v4/v6) x --to-ns x subnets per family (none/one/the listen address itself/both families) x excludes x "
+        "--ns-hosts v4/v6, --ns-hosts equal to a resolver) x --to-ns x subnets per family (none/one/the listen address itself, with and without a port/both families) x excludes (unrelated; entries whose IP equals an active listen address - default loopback or the --listen address of each family - plain, with another mask, with a port, with a port range, alone and combined with unrelated entries) x "
         "-N x user/group (absent, known, unknown) x bind-oracle patterns (all free, first ports busy per protocol/family, "
         "explicit port busy, EACCES, EADDRNOTAVAIL on IPv6, everything busy, all but the last port busy, all UDP busy); "
         "quick tier = corpus of boundary configurations (incl. those of findings F11-F14, F21, F22) "
@@ -629,10 +629,12 @@ DNS = {
     'dns0': dict(dns=1, resolv=[]),
     'nsh4': dict(nsh=[(4, '9.9.9.9')]),
     'nsh6': dict(nsh=[(6, '2001:db8::9')], resolv=[R4]),
+    'nsh=resolv': dict(dns=1, nsh=[R4, R6], resolv=[R4, R6]),
 }
 DNS_SMALL = ['off', 'dns46', 'nsh6']
+DNS_CORE = [k for k in DNS if k != 'nsh=resolv']
 
-SUBNETS = ['none', 'v4', 'v6', 'both', 'self4', 'self6', 'selfboth']
+SUBNETS = ['none', 'v4', 'v6', 'both', 'self4', 'self6', 'selfboth', 'self4port', 'self6range']
 SUBNETS_SMALL = ['v4', 'both', 'none']
 
 BIND_LIGHT = {
@@ -650,6 +652,26 @@ BIND_HEAVY = {
     'udp-all-busy': [('udp', 4, 0, 65535, 'inuse')],
     'udp6-all-but-last': [('udp', 6, 9002, 65535, 'inuse')],
 }
+
+# -x entries that coincide with what client.main adds by itself (the host-wide exclude of each
+# listen address): same IP, with/without port or port range, other mask, alone and among others.
+XSELF = ['x4port', 'x6range', 'x4plain', 'x6plain+x4range', 'x4mask', 'x6mask', 'x46port+other', 'x4port+x4plain']
+SUBNETS_X = ['v4', 'both', 'self4port', 'none']
+
+
+def excludes_of(form, lform):
+    ip4, ip6 = listen_ips(lform)
+    return {
+        'x4port': [(4, ip4, 32, 22, 22)],
+        'x6range': [(6, ip6, 128, 8000, 8080)],
+        'x4plain': [(4, ip4, 32, 0, 0)],
+        'x6plain+x4range': [(6, ip6, 128, 0, 0), (4, ip4, 32, 8000, 8080)],
+        'x4mask': [(4, ip4, 8, 0, 0)],
+        'x6mask': [(6, ip6, 64, 0, 0)],
+        'x46port+other': [X4, (4, ip4, 32, 22, 22), (6, ip6, 128, 443, 443), X6],
+        'x4port+x4plain': [(4, ip4, 32, 22, 22), (4, ip4, 32, 0, 0)],
+    }[form]
+
 
 UG = {
     'none': dict(),
@@ -678,10 +700,12 @@ def subnets_of(form, lform):
         'none': [], 'v4': [I4], 'v6': [I6], 'both': [I4P, I6],
         'self4': [(4, ip4, 32, 0, 0)], 'self6': [(6, ip6, 128, 0, 0), I4],
         'selfboth': [(4, ip4, 32, 0, 0), (6, ip6, 128, 0, 0)],
+        'self4port': [(4, ip4, 32, 22, 22), I6],
+        'self6range': [(6, ip6, 128, 8000, 8080), I4],
     }[form]
 
 
-def build(m, dis6, lf, df, sf, bf, tons=None, exc=(), an=None, ug='none', heavy=False):
+def build(m, dis6, lf, df, sf, bf, tons=None, exc=(), an=None, ug='none', heavy=False, xlabel=''):
     inc = subnets_of(sf, lf)
     if an is None:
         an = 1 if not inc and (hash_small(m, lf, df) % 2 == 0) else 0
@@ -689,7 +713,7 @@ def build(m, dis6, lf, df, sf, bf, tons=None, exc=(), an=None, ug='none', heavy=
     kw.update(UG[ug])
     return mkcase(meth=m[0], helper=m[1], dis6=dis6, listen=LISTEN[lf], inc=inc, exc=exc, an=an, tons=tons,
                   bind=(BIND_HEAVY if heavy else BIND_LIGHT)[bf], **kw), \
-        '%s/%s|%s|%s|%s|%s' % (m[0] or '-', m[1], lf, df, sf, bf)
+        '%s/%s|%s|%s|%s|%s|%s' % (m[0] or '-', m[1], lf, df, sf, bf, xlabel)
 
 
 def hash_small(*xs):
@@ -697,7 +721,7 @@ def hash_small(*xs):
 
 
 def product_core():
-    for m, dis6, lf, df, sf, bf in itertools.product(METHODS, (0, 1), LISTEN, DNS, SUBNETS, BIND_LIGHT):
+    for m, dis6, lf, df, sf, bf in itertools.product(METHODS, (0, 1), LISTEN, DNS_CORE, SUBNETS, BIND_LIGHT):
         yield build(m, dis6, lf, df, sf, bf)
 
 
@@ -706,6 +730,12 @@ def product_rest():
             METHODS, (0, 1), LISTEN_SMALL, DNS_SMALL, SUBNETS_SMALL, (None, (4, '1.1.1.1', 53)),
             ((), (X4,), (X4, X6)), (0, 1), UG):
         yield build(m, dis6, lf, df, sf, 'free', tons=tons, exc=exc, an=an, ug=ug)
+
+
+def product_coincide():
+    """User entries that coincide with entries client.main adds by itself."""
+    for m, dis6, lf, xf, sf, df in itertools.product(METHODS, (0, 1), LISTEN, XSELF, SUBNETS_X, ('off', 'dns46', 'nsh=resolv')):
+        yield build(m, dis6, lf, df, sf, 'free', exc=excludes_of(xf, lf), xlabel=xf)
 
 
 def product_heavy():
@@ -749,6 +779,18 @@ def corpus():
         build(nat, 0, 'both', 'dns46', 'both', 'free', tons=(6, '2001:db8::1', 5353)),
         build(nat, 1, 'none', 'dns4', 'v4', 'all-but-last', heavy=True),
     ]
+    # user excludes / includes on the listen address itself (seeded change M-C15-C)
+    for lf in ('none', 'lan4', 'both:ports', 'v6'):
+        for xf in XSELF:
+            out.append(build(nat, 0, lf, 'off', 'both', 'free', exc=excludes_of(xf, lf), xlabel=xf))
+    out += [
+        build(tpx, 0, 'none', 'dns46', 'v4', 'free', exc=excludes_of('x46port+other', 'none'), xlabel='x46port+other'),
+        build(nat, 1, 'none', 'off', 'v4', 'free', exc=excludes_of('x6range', 'none'), xlabel='x6range'),
+        build(nat, 0, 'none', 'off', 'self4port', 'free'),
+        build(nat, 0, 'none', 'off', 'self6range', 'free'),
+        build(nat, 0, 'none', 'off', 'self4port', 'free', exc=excludes_of('x4port', 'none'), xlabel='x4port'),
+        build(nat, 0, 'none', 'nsh=resolv', 'both', 'free'),
+    ]
     c, _ = build(nat, 0, 'none', 'off', 'v4', 'free')
     c['remote'] = 0
     out.append((c, 'no-remote'))
@@ -759,11 +801,12 @@ def gen_cases(ctx):
     cases = list(corpus())
     rng = ctx.rng
     if ctx.thorough:
-        cases += list(product_core()) + list(product_rest()) + list(product_heavy())
+        cases += list(product_core()) + list(product_rest()) + list(product_coincide()) + list(product_heavy())
     else:
         frac_core, frac_rest, n_heavy = 0.03 * ctx.boost, 0.02 * ctx.boost, 12 * ctx.boost
         cases += [x for x in product_core() if rng.random() < frac_core]
         cases += [x for x in product_rest() if rng.random() < frac_rest]
+        cases += [x for x in product_coincide() if rng.random() < frac_core]
         heavy = list(product_heavy())
         cases += rng.sample(heavy, min(n_heavy, len(heavy)))
     return cases
@@ -819,6 +862,8 @@ def run(ctx):
         ctx.hist('outcome:' + out.split(' ')[0] + (':' + out.split(' ')[1] if not out.startswith('plan') else ''))
         ctx.hist('method:' + case['helper'])
         ctx.hist('listen:' + label.split('|')[1] if '|' in label else 'listen:-')
+        if label.count('|') >= 5 and label.split('|')[5]:
+            ctx.hist('exclude-on-listen-address:' + label.split('|')[5])
         default = (case['listen'] is None and not case['dns'] and not case['bind'] and len(case['inc']) == 1
                    and not case['exc'] and case['user'] is None and case['group'] is None and not case['nsh'])
         ctx.mark(line, not default)
